@@ -729,6 +729,13 @@ hwloc_calc_process_location_as_set(struct hwloc_calc_location_context_s *lcontex
     arg++;
   }
 
+  if (!*arg) {
+    /* nothing after the operator (or an empty argument), don't take it as an empty set */
+    if (verbose >= 0)
+      fprintf(stderr, "missing location\n");
+    return -1;
+  }
+
   if (!strcmp(arg, "all") || !strcmp(arg, "root")) {
     err = hwloc_calc_append_set(output_cpuset,
                                 hwloc_topology_get_topology_cpuset(topology),
